@@ -36,7 +36,10 @@ TraceOp ==
        [] OTHER                  -> FALSE
 TraceFailedCall  == IsEv("OpError") /\ FailedCall(E.t)
 TraceCommitStart == IsEv("CommitStart") /\ CommitStart(E.t)
-TraceCommitEnd   == IsEv("CommitEnd") /\ CommitEnd(E.t, E.ok)
+\* C15: Commit returns within min(caller's deadline, maxTime) plus a small bounded overhead (one retry sleep of at most
+\* 80 ms, one backend call, scheduling): 1.5 s is allowed here; budget = 0 means the run does not assert it
+Overhead == 1500
+TraceCommitEnd   == IsEv("CommitEnd") /\ CommitEnd(E.t, E.ok) /\ (E.budget = 0 \/ E.ms <= E.budget + Overhead)
 TraceRollback    == IsEv("Rollback") /\ Rollback(E.t)
 TraceScribble    == IsEv("Scribble") /\ Scribble(E.t)
 TraceCrash       == IsEv("Crash") /\ Crash(E.t)
